@@ -36,6 +36,9 @@ type LaplaceDistribution struct {
 /* -------------------------------------------------------------------------- */
 
 func NewLaplaceDistribution(mu, sigma Scalar) (*LaplaceDistribution, error) {
+  if math.IsNaN(mu.GetFloat64()) || math.IsNaN(sigma.GetFloat64()) {
+    return nil, fmt.Errorf("invalid parameters")
+  }
   if sigma.GetFloat64() <= 0.0 {
     return nil, fmt.Errorf("invalid parameters")
   }
